@@ -251,11 +251,13 @@ func c05Alphabet() []c05Cmd {
 		{kind: "add", svc: "sa", host: "Foo.COM", path: "/", dst: h1},
 		{kind: "add", svc: "sa", host: "foo.com", path: "/", dst: h2, tags: []string{"a", "b"}},
 		{kind: "add", svc: "sb", host: "foo.com", path: "/", dst: h3, w: 0.2, tags: []string{"a"}},
-		{kind: "add", svc: "sb", host: "", path: "/x", dst: h3, opts: map[string]string{"strip": "/x", "proto": "http"}},
+		{kind: "add", svc: "sb", host: "", path: "/x", dst: h3, opts: map[string]string{"strip": "/x", "proto": "http", "token": "a=b=="}}, // an option value may itself contain '='
 		{kind: "add", svc: "sa", host: "foo.com", path: "/x", dst: h1},
 		{kind: "add", svc: "sa", host: "foo.com", path: "/", dst: h1, w: 0.5},
 		{kind: "add", svc: "sa", host: "foo.com", path: "/", dst: h1, w: -1}, // negative = no fixed weight: same target as the first command
-		{kind: "add", svc: "sc", host: "foo.com", path: "/x", dst: h2, w: 10}, // weights above 1 are legal (normalised); 10 has trailing zeros in every rendering
+		{kind: "add", svc: "sc", host: "foo.com", path: "/X", dst: h2, w: 10}, // weights above 1 are legal (normalised); 10 has trailing zeros in every rendering; /X and /x are different paths
+		{kind: "weight", form: "svc", svc: "sc", host: "foo.com", path: "/X", w: 0.4},
+		{kind: "del", form: "svc-src", svc: "sa", host: "foo.com", path: "/X"}, // names the /X route, on which sa has nothing
 		{kind: "add", svc: "sa", host: "foo.com", path: "/", dst: "http://10.0.0.1:80"}, // differs from h1 only by the trailing slash: another target
 		{kind: "del", form: "svc-src-dst", svc: "sa", host: "foo.com", path: "/", dst: "http://10.0.0.1:80"},
 		{kind: "del", form: "svc", svc: "sa"},
@@ -298,7 +300,7 @@ func c05Script(alpha []c05Cmd, script []int) string {
 
 func TestVerifC05Commands(t *testing.T) {
 	L := ev.Begin("C05", "c05-commands", "model_checking",
-		"explicit-state BFS over route command scripts: 21 commands (add incl. host-case / weight / tags / opts / near-miss destination variants, the 5 del forms, the 3 weight forms); state = canonical reference table; every (state,command) transition rebuilds the real table with NewTable(shortest script + command) and compares hosts, routes, ordered targets (service, url, fixed weight, tags, opts) with the reference interpreter; every state round-trips through Parse(t.String()). non-trivial = transition that changes the state")
+		"explicit-state BFS over route command scripts: 23 commands (paths differing only in letter case, an option value containing '=', add incl. host-case / weight / tags / opts / near-miss destination variants, the 5 del forms, the 3 weight forms); state = canonical reference table; every (state,command) transition rebuilds the real table with NewTable(shortest script + command) and compares hosts, routes, ordered targets (service, url, fixed weight, tags, opts) with the reference interpreter; every state round-trips through Parse(t.String()). non-trivial = transition that changes the state")
 	alpha := c05Alphabet()
 	maxDepth := 5
 	if ev.Thorough() {
